@@ -27,12 +27,27 @@ theorem xonly_pubkey_parse_sites : Facts.xonly_pubkey_parse = [
     ⟨.ge_set_xo_var, 1, true, none⟩
   ] := by decide
 
-def all : List CallFact := Facts.schnorrsig_verify ++ Facts.xonly_pubkey_parse
+/-- `secp256k1_schnorrsig_challenge`: its fallible-primitive call sites are exactly these, each with its result / overflow flag
+    consumed as listed. -/
+theorem schnorrsig_challenge_sites : Facts.schnorrsig_challenge = [
+    ⟨.scalar_set_b32, 1, false, none⟩
+  ] := by decide
+
+/-- `secp256k1_schnorrsig_sign_internal`: its fallible-primitive call sites are exactly these, each with its result / overflow flag
+    consumed as listed. -/
+theorem schnorrsig_sign_internal_sites : Facts.schnorrsig_sign_internal = [
+    ⟨.ecmult_gen_context_is_built, 1, true, none⟩,
+    ⟨.keypair_load, 1, true, none⟩,
+    ⟨.scalar_set_b32, 1, false, none⟩,
+    ⟨.scalar_is_zero, 1, true, none⟩
+  ] := by decide
+
+def all : List CallFact := Facts.schnorrsig_verify ++ Facts.xonly_pubkey_parse ++ Facts.schnorrsig_challenge ++ Facts.schnorrsig_sign_internal
 
 /-- No overflow flag written by a scalar decoding in these functions is ignored (overwritten or never read). -/
 theorem no_flag_dropped : ∀ f ∈ all, f.flag ≠ some false := by decide
 
 /-- non-vacuity: the regenerated fact lists are not empty -/
-example : all.length = 6 := by decide
+example : all.length = 11 := by decide
 
 end SecpZkp.Props.C02_guards
